@@ -896,7 +896,7 @@ func doReifyPrimitive(
 		}
 		return v, nil
 
-	case isUint(kind):
+	case isUint(kind) || kind == reflect.Uintptr:
 		v, err := reifyUint(opts, val, baseType)
 		if err != nil {
 			return v, err
